@@ -320,8 +320,84 @@ Theorem c20_source_attention_blind_to_masked :
 Proof. exact Tie.source_dot_blind_to_masked. Qed.
 Print Assumptions c20_source_attention_blind_to_masked.
 
-(* non-vacuity: the interpreted source on the concrete masked, batched input of c20_nonvacuous (dim 0, and the
-   same axis spelled -3 is out of the documented range for a rank-3 key: ValueError) returns the model's tensor *)
+(* GeneralizedDotProductSoftAttention (weight rows W of length key_size, one per query feature; optional bias):
+   `torch.nn.functional.linear(key, self.weight, self.bias)`, the unsqueezed query, the product and the sum over the
+   feature axis, then the same forward pass - again exactly Model.attend, now with the "general" score *)
+Theorem c20_source_general_forward_is_model :
+  forall expf tanhf W b dim qs ks q k v m p out,
+  axis_pos dim (length (tshape k)) = Some p ->
+  fl_sizes (General W b) qs ks = true ->
+  attend expf (score tanhf (General W b)) q k v m p qs ks = Some out ->
+  exists st,
+    SrcRun.run_forward expf SrcRun.GeneralCls (SrcRun.self_general dim qs ks W b)
+                       (SrcRun.flat q) (SrcRun.flat k) (SrcRun.flat v) (option_map SrcRun.flat m)
+    = Interp.Ok (OpsC20.enc_q (SrcRun.flat out)) st.
+Proof. exact Tie.forward_general_tie. Qed.
+Print Assumptions c20_source_general_forward_is_model.
+
+Theorem c20_source_general_in_kept_range :
+  forall expf W b dim qs ks q k v m p,
+  (forall x, (0 < expf x)%Q) ->
+  axis_pos dim (length (tshape k)) = Some p -> fl_sizes (General W b) qs ks = true ->
+  Tie.legal_input q k v m p qs ks -> seq_agree k v p ->
+  exists r st,
+    SrcRun.run_forward expf SrcRun.GeneralCls (SrcRun.self_general dim qs ks W b)
+                       (SrcRun.flat q) (SrcRun.flat k) (SrcRun.flat v) (option_map SrcRun.flat m)
+    = Interp.Ok (OpsC20.enc_q r) st /\
+    forall c j lo hi, valid (rev (OpsC07.shp r)) (c :: j) ->
+      (exists t, t < nth p (tshape k) 0 /\ kept_at m (ins (p - 1) t j) = true) ->
+      (forall t, t < nth p (tshape k) 0 -> kept_at m (ins (p - 1) t j) = true ->
+                 (lo <= bget v (c :: ins (p - 1) t j) <= hi)%Q) ->
+      (lo <= tat (OpsC20.rd 0%Q r) (c :: j) <= hi)%Q.
+Proof. exact Tie.source_general_in_kept_range. Qed.
+Print Assumptions c20_source_general_in_kept_range.
+
+(* where the model rejects, the interpreted source raises (any score class, any mask; the exception comes out of
+   the translated check_input, before the score method is reached).  NOT covered: dim = -1 (check_input's test
+   reads `key_dim == -1`, so -1 itself is not rejected there; the model, like the documentation, rejects it - no
+   generated case uses it), and the failures of the mask / value broadcasts. *)
+Theorem c20_source_forward_rejects_rank :
+  forall expf cls d (q k v : tensor Q) (m : option (tensor bool)),
+  S (length (tshape q)) <> length (tshape k) ->
+  exists st,
+    SrcRun.run_forward expf cls (Syntax.VDict d) (SrcRun.flat q) (SrcRun.flat k) (SrcRun.flat v) (option_map SrcRun.flat m)
+    = Interp.Exc SrcRun.value_error st.
+Proof. exact Tie.forward_rejects_rank. Qed.
+Print Assumptions c20_source_forward_rejects_rank.
+
+Theorem c20_source_forward_rejects_dim :
+  forall expf cls d dim qs ks (q k v : tensor Q) (m : option (tensor bool)),
+  Interp.dict_get d (Syntax.VStr Tie.attr_dim) = Some (Syntax.VInt dim) ->
+  Interp.dict_get d (Syntax.VStr Tie.attr_query_size) = Some (Syntax.VInt (Z.of_nat qs)) ->
+  Interp.dict_get d (Syntax.VStr Tie.attr_key_size) = Some (Syntax.VInt (Z.of_nat ks)) ->
+  forall sq' sk',
+  S (length (tshape q)) = length (tshape k) -> length (tshape v) = length (tshape k) ->
+  tshape q = qs :: sq' -> tshape k = ks :: sk' ->
+  axis_pos dim (length (tshape k)) = None -> dim <> (-1)%Z ->
+  exists st,
+    SrcRun.run_forward expf cls (Syntax.VDict d) (SrcRun.flat q) (SrcRun.flat k) (SrcRun.flat v) (option_map SrcRun.flat m)
+    = Interp.Exc SrcRun.value_error st.
+Proof. exact Tie.forward_rejects_dim. Qed.
+Print Assumptions c20_source_forward_rejects_dim.
+
+Theorem c20_source_forward_rejects_bcast :
+  forall expf cls d dim qs ks (q k v : tensor Q) (m : option (tensor bool)),
+  Interp.dict_get d (Syntax.VStr Tie.attr_dim) = Some (Syntax.VInt dim) ->
+  Interp.dict_get d (Syntax.VStr Tie.attr_query_size) = Some (Syntax.VInt (Z.of_nat qs)) ->
+  Interp.dict_get d (Syntax.VStr Tie.attr_key_size) = Some (Syntax.VInt (Z.of_nat ks)) ->
+  forall p sq' sk',
+  S (length (tshape q)) = length (tshape k) -> length (tshape v) = length (tshape k) ->
+  tshape q = qs :: sq' -> tshape k = ks :: sk' ->
+  axis_pos dim (length (tshape k)) = Some p ->
+  bshape (tl (tshape (unsq p q))) (tl (tshape k)) = None ->
+  exists st,
+    SrcRun.run_forward expf cls (Syntax.VDict d) (SrcRun.flat q) (SrcRun.flat k) (SrcRun.flat v) (option_map SrcRun.flat m)
+    = Interp.Exc SrcRun.runtime_error st.
+Proof. exact Tie.forward_rejects_bcast. Qed.
+Print Assumptions c20_source_forward_rejects_bcast.
+
+(* non-vacuity: the interpreted source on the concrete masked, batched input of c20_nonvacuous (dim 0; dim -3 is out
+   of the documented range for a rank-3 key: ValueError; a generalised score 2 k + 1) returns the model's tensor *)
 Example c20_source_nonvacuous :
   let expf := fun x : Q => (x * x + 1)%Q in
   let q0 := qt [1; 2] [1; -2]%Q in
@@ -333,9 +409,13 @@ Example c20_source_nonvacuous :
   /\ SrcRun.src_attend expf (Dot 1) 1 1 0%Z q0 k0 v0 m0
      = Some (Some (OpsC07.mkTn [2; 2] [189 # 49; 238 # 49; 97461 # 9261; 106722 # 9261]%Q))
   /\ SrcRun.src_attend expf (Dot 1) 1 1 (-3)%Z q0 k0 v0 m0 = Some None
+  /\ SrcRun.src_attend expf (General [[2]]%Q (Some [1]%Q)) 1 1 0%Z q0 k0 v0 m0
+     = option_map (fun o => Some (SrcRun.flat o))
+                  (attend expf (score (fun x => x) (General [[2]]%Q (Some [1]%Q))) q0 k0 v0 m0 2 1 1)
   /\ Tie.legal_input q0 k0 v0 m0 2 1 1.
 Proof.
   cbv zeta. split; [vm_compute; reflexivity|]. split; [vm_compute; reflexivity|]. split; [vm_compute; reflexivity|].
+  split; [vm_compute; reflexivity|].
   assert (H : exists out, attend (fun x : Q => (x * x + 1)%Q) (score (fun x => x) (Dot 1))
                                  (qt [1; 2] [1; -2]%Q) (qt [1; 2; 3] [1; 0; 2; 1; -1; 3]%Q)
                                  (qt [2; 2; 3] [1; 2; 3; 4; 5; 6; 7; 8; 9; 10; 11; 12]%Q)
